@@ -6,16 +6,16 @@ from rules import recovery as R
 
 
 def run(ctx):
-    L.lck1_flush_critical_section(ctx, with_reset=True)
-    L.cnd1_condvars(ctx)
-    D.ord5_flush_order(ctx)
-    D.flw14_nothing_to_delete_is_lost(ctx)
-    D.ord4_atomic_store(ctx)
-    R.flw15_flush_trigger(ctx)
-    D.lit3_wal_file_names(ctx)
-    U.flw17_segment_id_units(ctx)
-    D.flw19_log_size_accounted(ctx)
-    L.cnd2_every_wakeup_condition_notifies(ctx)
+    ctx.run(L.lck1_flush_critical_section, with_reset=True)
+    ctx.run(L.cnd1_condvars)
+    ctx.run(D.ord5_flush_order)
+    ctx.run(D.flw14_nothing_to_delete_is_lost)
+    ctx.run(D.ord4_atomic_store)
+    ctx.run(R.flw15_flush_trigger)
+    ctx.run(D.lit3_wal_file_names)
+    ctx.run(U.flw17_segment_id_units)
+    ctx.run(D.flw19_log_size_accounted)
+    ctx.run(L.cnd2_every_wakeup_condition_notifies)
     return ctx.finish(
         'Static analysis of compiler MIR: the flush resets the accounted log size to 0 and '
         'notifies under the ingestion lock; every file of a merged-away partition and the frozen '
